@@ -97,15 +97,15 @@ def run_shape(shape):
 
     expf = uf_exp()
     for path in eng.explore(body):
-        acc.paths += 1
+        acc.begin(prover, path)
         if path.kind == "exc":
             acc.structural("no_exception", False, detail=repr(path.value),
                            cex={"kind": "exception", "exc": type(path.value).__name__})
             continue
         Q, Qs, Qa = path.value
         prem = path.premises
-        if acc.reachable is None:
-            acc.reachable = prover.satisfiable(prem) == "sat"
+        if acc.reachable is not True:
+            acc.reach(prover.satisfiable(prem))
         acc.structural("result_is_csr", getattr(Q, "format", None) == "csr" and Q.shape == (n, n), detail=str(getattr(Q, "format", None)))
         Qd, Qsd, Qad = Q.toarray(), Qs.toarray(), Qa.toarray()
         claims = []
